@@ -215,7 +215,12 @@ def _confirm_flags(formula: T) -> List[T]:
                 l.op == "cmp" and any(
                     x.op == "call" and tm.callee_name(x) == CHK
                     for x in (l.args[1], l.args[2])))
-        if any(is_prompt(l) for l in lits):
+        # (the prompt may sit one and/or level further down: nested ifs
+        # give ((prompt or not isinstance) or not flag))
+        deep = [a for l in lits for a in ([l] if l.op not in ("and", "or")
+                                          else tm.atoms(l))]
+        if any(is_prompt(l) for l in lits) or any(is_prompt(a)
+                                                  for a in deep):
             for l in lits:
                 if l.op == "param" and l not in flags:
                     flags.append(l)
@@ -947,6 +952,30 @@ def _check_prompt(ctx):
                     T("not", ne), T("not", ne2),
                     T("unop", "Not", ne), T("unop", "Not", ne2)}
         ok = ret in accepted
+        if not ok:
+            # any other spelling of the same truth table: evaluated for
+            # "the input equals the key" true / false
+            def world(equal):
+                def env(a):
+                    if a.op in ("and", "or", "not"):
+                        return None
+                    if a in (eq, eq2):
+                        return equal
+                    if a in (ne, ne2):
+                        return not equal
+                    return None
+                return env
+
+            def val(t, equal):
+                t = Interp.unname(t)
+                if tm.is_const(t) and isinstance(tm.const_val(t), bool):
+                    return tm.const_val(t)
+                if t.op == "ite":
+                    c_ = tm.fold(it.as_cond(t.args[0]), world(equal))
+                    return None if c_ is None else val(
+                        t.args[1 if c_ else 2], equal)
+                return tm.fold(it.as_cond(t), world(equal))
+            ok = val(ret, True) is True and val(ret, False) is False
     ctx.ob("C17.4", f, ok,
            "confirm() returns True exactly when input() == key"
            if ok else
